@@ -190,6 +190,33 @@ Definition chain (svc : str) (c : chain_cfg) (redirect_len : N) (e : ending) : l
   | EUpgraded t => (claim_ctx svc t, [OpHijack true], HReturn)
   end.
 
+(** *** The pinned buffered writer (before repair 59cbdb7)
+
+    bufferedResponseWriter.WriteHeader took the FIRST status as final, whatever
+    it was: an informational header (103 Early Hints) ahead of the final one
+    made Send() pass WriteHeader(103) on and the final status was lost. *)
+Definition rw_step_pinned (w : rw) (o : hop) : rw :=
+  match o with
+  | HWriteHeader s sse =>
+    if rheader_written w then w else
+    let w1 := mkRw (rbuf w) s true (rhijacked w) (rbypass w) (rout w) in
+    if sse then
+      let w2 := mkRw (rbuf w1) s true (rhijacked w1) true (rout w1) in
+      fst (rw_send w2)
+    else w1
+  | _ => rw_step w o
+  end.
+
+Definition resp_mw_pinned (maxm maxb : N) (ops : list hop) : list cev :=
+  let w := fold_left rw_step_pinned ops (new_rw maxm maxb) in
+  let '(w1, ok) := rw_send w in
+  rev (if ok then rout w1 else CError500 :: rout w1).
+
+(** the calls reaching the logging writer for 103 + final response under the pinned code *)
+Definition hints_ops_pinned (maxm maxb s : N) (body : str) : list wop :=
+  flat_map wev_op (flat_map cev_wev
+    (resp_mw_pinned maxm maxb [HWriteHeader 103 false; HWriteHeader s false; HWrite body])).
+
 (** The service / target the property speaks of: the one routed to, the one claimed. *)
 Definition used_service (svc : str) (e : ending) : str :=
   match e with ENoRoute => [] | _ => svc end.
